@@ -1462,8 +1462,12 @@ int ex_command(char *ln)
 #ifdef NEATVI_VERIF
 	int verif_lvl = ex_verif_lvl++;
 #endif
-	int ret = ex_exec(ln);
-	lbuf_modified(xb);
+	static int depth;	/* nested calls: @, :so, :e +cmd */
+	int ret;
+	depth++;
+	ret = ex_exec(ln);
+	if (!--depth)		/* the whole line is one undo step */
+		lbuf_modified(xb);
 #ifdef NEATVI_VERIF
 	ex_verif_lvl--;
 	if (verif_on()) {
